@@ -364,6 +364,12 @@ func c05Headers(c *Ctx, r *Report) {
 	want := "hdr | const 0 | arch | def.globalMesgNum | byte(len(def.fields)) | fields"
 	r.check(got == want, "C05-R3-def-layout", "writeDefMesg/sequence", c.pos(fd.Pos()), got, "definition record is written as ["+got+"], FIT layout is ["+want+"]")
 	okArch := archMap["binary.LittleEndian"] == "0" && archMap["binary.BigEndian"] == "1" && len(archMap) == 2
+	if !okArch {
+		// alternative spelling: arch, ok := h(e.arch); if ok { binary.Write(e.w, e.arch, arch) }
+		if m, okH := c05ArchHelper(c); okH {
+			okArch, archMap = true, m
+		}
+	}
 	le0, _ := c.constInt(c.fit, "littleEndian")
 	be1, _ := c.constInt(c.fit, "bigEndian")
 	r.check(okArch && le0 == 0 && be1 == 1, "C05-R3-def-layout", "writeDefMesg/arch-byte", c.pos(fd.Pos()), "LittleEndian -> 0, BigEndian -> 1 (inverse of the decoder's switch)", fmt.Sprintf("architecture byte mapping is %v; decoder expects 0 = little endian, 1 = big endian", archMap))
@@ -392,6 +398,8 @@ func c05Sizes(c *Ctx, r *Report) {
 	}
 	// (a) declared size formula in writeDefMesg
 	fd := c.decl(c.fn(c.fit, "encoder.writeDefMesg"))
+	c.inlineTypeAccessorLocals(fd)
+	c.inlineTypeAccessorLocals(c.decl(c.fn(c.fit, "encoder.writeField")))
 	declOK := false
 	declWhy := "writeDefMesg's field loop is not recognised"
 	if fd != nil {
@@ -1122,4 +1130,67 @@ func (c *Ctx) encodeUnit() *encUnit {
 		fn = callee
 	}
 	return nil
+}
+
+// c05ArchHelper: the architecture byte written by writeDefMesg is extract #0 of h(e.arch), h a
+// loop-free module function with path terms {order == LittleEndian -> (0, true); order ==
+// BigEndian -> (1, true); otherwise -> (_, false)}, and the write is under the ok flag.
+func c05ArchHelper(c *Ctx) (map[string]string, bool) {
+	fn := c.ssaFn(c.fn(c.fit, "encoder.writeDefMesg"))
+	if fn == nil {
+		return nil, false
+	}
+	for _, ci := range allCalls(fn) {
+		f := ci.Common().StaticCallee()
+		if f == nil || f.String() != "encoding/binary.Write" {
+			continue
+		}
+		arg := ci.Common().Args[2]
+		if mi, ok := arg.(*ssa.MakeInterface); ok {
+			arg = mi.X
+		}
+		ex, ok := arg.(*ssa.Extract)
+		if !ok || ex.Index != 0 {
+			continue
+		}
+		call, ok := ex.Tuple.(*ssa.Call)
+		if !ok || call.Common().StaticCallee() == nil || len(call.Common().Args) != 1 || !strings.HasSuffix(pathOf(call.Common().Args[0]), ".arch") {
+			continue
+		}
+		var okFlag ssa.Value
+		for _, ref := range *call.Referrers() {
+			if e, isE := ref.(*ssa.Extract); isE && e.Index == 1 {
+				okFlag = e
+			}
+		}
+		if okFlag == nil || !domByBoolEdge(fn, ci.Block(), true, func(v ssa.Value) bool { return v == okFlag }) {
+			return nil, false
+		}
+		o := symPaths(call.Common().StaticCallee(), nil, 1)
+		if o.why != "" || len(o.paths) != 3 {
+			return nil, false
+		}
+		m := map[string]string{}
+		const isLE, isBE = "(== (iface *g:LittleEndian) p0)", "(== (iface *g:BigEndian) p0)"
+		for _, p := range o.paths {
+			if len(p.rets) != 2 {
+				return nil, false
+			}
+			cs := strings.Join(p.conds, " ")
+			switch {
+			case p.rets[1] == "false":
+				if cs != "F:"+isBE+" F:"+isLE {
+					return nil, false
+				}
+			case p.rets[1] == "true" && cs == "T:"+isLE:
+				m["binary.LittleEndian"] = p.rets[0]
+			case p.rets[1] == "true" && (cs == "F:"+isLE+" T:"+isBE || cs == "T:"+isBE):
+				m["binary.BigEndian"] = p.rets[0]
+			default:
+				return nil, false
+			}
+		}
+		return m, m["binary.LittleEndian"] == "0" && m["binary.BigEndian"] == "1"
+	}
+	return nil, false
 }
